@@ -30,8 +30,27 @@ let rec chunks k l =
 let width_of ty = if ty = "f32" then 4 else if ty = "f64" then 8 else int_of_string ty
 let big s = String.length s > 7   (* decimal counts beyond 10^7 are never run through the model *)
 
-let handle toks =
+(* "OK <hex> ..." with the bytes already in the buffer put in front of the first [nbufs] byte strings *)
+let with_prefix nbufs pre line =
+  match String.split_on_char ' ' line with
+  | "OK" :: rest ->
+      let p = if pre = "-" then "" else pre in
+      let rec go k l = match l with
+        | x :: t when k > 0 -> (let x' = (if x = "-" then "" else x) in let y = p ^ x' in (if y = "" then "-" else y)) :: go (k - 1) t
+        | l -> l in
+      String.concat " " ("OK" :: go nbufs rest)
+  | _ -> line
+
+let rec handle toks =
+  (* very large cases (BYTE_STREAM_SPLIT with tens of thousands of values) are not run through the inductive numbers *)
+  let total = List.fold_left (fun a t -> a + String.length t) 0 toks in
+  let is_bss = (match toks with op :: _ -> (String.length op >= 3 && String.sub op 0 3 = "bss") || (String.length op >= 8 && String.sub op 0 8 = "spec_bss") | [] -> false) in
+  if total > 300000 || (is_bss && total > 20000) then "SKIP" else
   match toks with
+  | ["plain_encp"; ty; vals; pre] -> with_prefix 1 pre (handle ["plain_enc"; ty; vals])
+  | ["dl_encp"; vals; pre] -> with_prefix 1 pre (handle ["dl_enc"; vals])
+  | ["ds_encp"; vals; pre] -> with_prefix 1 pre (handle ["ds_enc"; vals])
+  | ["dict_encp"; ty; vals; pre] -> with_prefix 2 pre (handle ["dict_enc"; ty; vals])
   (* ------------------------------------------------------------ PLAIN *)
   | ["plain_enc"; ty; vals] ->
       (match ty with
